@@ -140,6 +140,43 @@ class AbsList:
     def append(self, x):
         self.tail.append(x)
 
+    def __setitem__(self, i, value):
+        """lst[i] = v: supported for positions in the concrete tail (e.g. lst[-1] after an append)"""
+        if isinstance(i, slice):
+            raise Undecided("slice assignment on an abstract list")
+        c = cur()
+        n = toint(self._pyvc_len())
+        it = _t(i)
+        if c.branch(it < 0):
+            it = _simp(it + n)
+        if c.branch(z3.Or(it < 0, it >= n)):
+            raise IndexError("list assignment index out of range")
+        nt = self._nt()
+        if not self.tail or c.branch(it < nt):
+            raise Undecided("assignment into the abstract part of an abstract list")
+        k = _simp(it - nt)
+        kv = _cval(k)
+        if kv is None:
+            for j in range(len(self.tail)):
+                if c.branch(k == j):
+                    kv = j
+                    break
+            else:
+                raise core.PathEnd("infeasible tail index")
+        self.tail[kv] = value
+
+    def pop(self, i=-1):
+        if i != -1:
+            raise Undecided("pop(i) on an abstract list")
+        if self.tail:
+            return self.tail.pop()
+        c = cur()
+        if c.branch(self._nt() <= 0):
+            raise IndexError("pop from empty list")
+        last = self._pyvc_elem(SInt(_simp(self._nt() - 1)))
+        self.n = SInt(_simp(self._nt() - 1))
+        return last
+
     def __delitem__(self, i):
         """del lst[i]: the abstract part becomes elem'(j) = elem(j) for j < i, elem(j + 1) for j >= i (one shorter);
         an index into the concrete tail removes that item"""
